@@ -141,7 +141,7 @@ CLAIMED = {
          "SendUnitData with sequence counts, Forward Close, re-open, session-ending frames, truncations): replies re-derived by the spec and "
          "the real Forward Open table compared with the model's after every reply and after the session.  The request size limit option (ServerOps!Oversize): "
          "streams on servers whose limit is at / one below a frame's payload length.",
-         "5/C06", "List* reply payloads not modelled here (header only; their layout is C01's); random session handle only required non-zero; connection-table clean-up modelled as coded (DEVIATION notes in Server.tla)",
+         "5/C06", "List* reply payloads are those of the default Identity object (ServerOps!ListPayload); random session handle only required non-zero; connection-table clean-up modelled as coded (DEVIATION notes in Server.tla)",
          "TLA+ connection model + TLC; pipelined sessions on the real server validated by TLC trace spec (replies re-derived by the spec)"),
  "C15": ("model_checking",
          "Server!RouteAccepted is the statement's decision table; the full matrix 6 personalities x 9 request route-path shapes x 4 "
